@@ -218,7 +218,9 @@ def work(job):
     try:
         for (I, O, warm, persist) in configs:
             acc.add('states')
-            run_config(fam, I, O, warm, persist, depth, tmp, acc, deps)
+            # the persistence format acts once, when the trimmed model is loaded: the deepest histories are
+            # explored on the direct model, the file formats one level shallower
+            run_config(fam, I, O, warm, persist, depth if persist == 'direct' or depth < 3 else depth - 1, tmp, acc, deps)
         if configs:
             acc.sample(dict(workbook=fam['name'], cells=fam['spec']['sheets'], config=jsonable(configs[0]),
                             depth=depth, values=[repr(v) for v in VALUES]))
